@@ -362,4 +362,8 @@ def run(ck: Checker):  # noqa: F811
     _run_without_unary(ck)
     ck.rule('C18.UNARY', 'the parity/buffer redirection tables of MergeUnaryOperators folded over every chain of unary gates up to length 5 (6 thorough): function and interface kept, stated post-conditions reached; the recurrence is uniform in the chain position')
     unary_chain_fold(ck)
+    ck.rule('C18.FOLD', 'each pass folded over a family of model circuits (oracle traversals, two visiting orders): RemoveRedundantGates returns exactly the reachable gates (+ inputs) and is idempotent; after MergeDuplicateGates / MergeEquivalentGates (+ implied RemoveRedundantGates) no two gates share a signature / no two non-input gates a truth table; MergeUnaryOperators post-conditions; and the common clauses of C03')
+    from .. import passes
+    passes.fold_passes(ck, 'C18.FOLD', 'C18.FOLD')
+    ck.floor('C18.FOLD', 10)
     ck.assume('dfs/top_sort behave as their oracle models while folding MergeUnaryOperators (C20)')
